@@ -41,11 +41,11 @@ META.update({
   note="std's write_all/read_exact are executed by CBMC, not trusted; alloc::fmt::format is stubbed (error-message text not covered). u64/u128 fault schedules limited to 4/3 calls; Cursor length <= 2 words.",
   design="4/C11"),
  "C13": dict(
-  technique="contract harnesses against an array+cursor model, Kani/CBMC, array length bounded",
-  category="other",
-  text="Bounded contract check (array length <= 3 quick / 6 thorough; contents, length, cursor, operation, storage kind symbolic): every method of MemWordReader (zero-extended and strict), MemWordWriterSlice and MemWordWriterVec (owned and borrowed storage) "
+  technique="Verus requires/ensures on the extracted real text of every method against the array-plus-cursor model (arrays of every length); Kani contract harnesses (array length bounded) for counterexamples",
+  category="proof",
+  text="Proof (Verus, unbounded array length, one unit per word type): read_word / write_word / word_pos / set_word_pos of MemWordReader (zero-extended and strict), MemWordWriterSlice and MemWordWriterVec return the word under the cursor and advance it, store at the cursor (growing a vector with zero fill), report positions exactly, report an error beyond the end without moving the cursor, yield zeros there when zero-extended, and leave the position unchanged on a rejected set-position. Plus a bounded contract check (array length <= 3 quick / 6 thorough; contents, length, cursor, operation, storage kind symbolic): every method of MemWordReader (zero-extended and strict), MemWordWriterSlice and MemWordWriterVec (owned and borrowed storage) "
        "agrees with the array-plus-cursor model from an arbitrary state built through the public API, including rejected seeks and errors beyond the end leaving the cursor unchanged.",
-  note="Bounded in the array length only (never counted as proved). Positions assumed < 2^56 words. alloc::fmt::format stubbed. Vec<u64..u128> harnesses are in the thorough tier (7 GB each).",
+  note="Verus units instantiate the storage parameter B to the slice / vector itself (owned vs borrowed storage differ only in AsRef/AsMut, covered by the Kani harnesses) and replace std::io::Error::new(..) by an opaque value; cursor < usize::MAX assumed. Kani harnesses bounded in the array length (never counted as proved). Positions assumed < 2^56 words. alloc::fmt::format stubbed. Vec<u64..u128> harnesses are in the thorough tier (7 GB each).",
   design="4/C13"),
  "C17": dict(
   technique="loop-free full-domain contract harnesses discharged by Kani/CBMC",
